@@ -6,6 +6,12 @@ import (
 )
 
 var vHarnesses = map[string]func(p []int){
+	"H_C15_b2bit":          func(p []int) { H_C15_b2bit() },
+	"H_C15_b2bitarr":       func(p []int) { H_C15_b2bitarr(p[0]) },
+	"H_C15_bytes_vs_bits":  func(p []int) { H_C15_bytes_vs_bits(p[0]) },
+	"H_C15_testbytes":      func(p []int) { H_C15_testbytes(p[0]) },
+	"H_C15_defaults":       func(p []int) { H_C15_defaults(p[0]) },
+	"H_C15_readgroup":      func(p []int) { H_C15_readgroup(p[0]) },
 	"H_C04_lc_block": func(p []int) { H_C04_lc_block(p[0]) },
 	"H_C04_lc_crash": func(p []int) { H_C04_lc_crash(p[0]) },
 	"H_C04_lc_proto": func(p []int) { H_C04_lc_proto(p[0], p[1]) },
